@@ -21,8 +21,10 @@
 (* One verdict line per trace: <<"V", id, verdict, pos>>                       *)
 (*   "ACCEPT"                                                                  *)
 (*   "PROP:<clause>"   a clause of the C05 statement is false on the OBSERVED   *)
-(*                     logs (never on model state); the suffix                  *)
-(*                     ":window_overshoot" marks the known shape (see below)    *)
+(*                     logs (never on model state); the suffixes                *)
+(*                     ":window_overshoot" / ":link_latency_no_sample" name the *)
+(*                     shape of the failing execution (computed from observed   *)
+(*                     data only, whether or not the finding is still open)     *)
 (*   "MODEL:<what>"    the run is not a behaviour of Windowed.tla (drift)       *)
 EXTENDS Windowed, Json, IOUtils
 
@@ -123,7 +125,7 @@ ObsDeliver(p, i, t) ==
 \* as-code overshoot delivery and the discarded event is not earlier than that window end
 ObsSkip(p, i) ==
     /\ IF ~TCross(i) THEN NoFlag /\ UNCHANGED known
-       ELSE IF oovr[p] >= 0 /\ ~wild[p] /\ Tr.evs[i][1] >= oovr[p] /\ "window_overshoot" \in Dev
+       ELSE IF oovr[p] >= 0 /\ ~wild[p] /\ Tr.evs[i][1] >= oovr[p]
             THEN known' = known \cup {i} /\ NoFlag
             ELSE Flag("PROP:discarded_past") /\ UNCHANGED known
     /\ UNCHANGED <<olog, oclk, oend, oovr, wild, oinj>>
@@ -176,8 +178,7 @@ Anc(i) == LET RECURSIVE A(_)
 \* end_time, it never pops again, and a cross event injected behind its clock stays in the heap
 \* (it would be discarded as past at the next pop) until the run is over.
 Stranded ==
-    IF "window_overshoot" \notin Dev THEN {}
-    ELSE { i \in 1..Len(Tr.evs) :
+         { i \in 1..Len(Tr.evs) :
              /\ i \notin ODelivered /\ TCross(i)
              /\ \E q \in 1..Tr.np : /\ <<i, q>> \in oinj /\ ValidP(q)
                                     /\ oovr[q] >= 0 /\ ~wild[q]
@@ -193,7 +194,7 @@ FinalVerdict ==
         retimed == { x \in missing : \E y \in ObsSet(olog) : y[2] = x[2] }
         extra == OD \ SD
     IN IF bad # "" THEN <<bad, badpos>>
-       ELSE IF TErr = "no_sample" /\ "link_latency_no_sample" \in Dev /\ missing # {}
+       ELSE IF TErr = "no_sample" /\ missing # {}
             THEN <<"PROP:run_aborted:link_latency_no_sample", 0>>
        ELSE IF TErr # "" /\ missing # {} THEN <<"PROP:run_raised", 0>>
        ELSE IF Tr.mode = "indep" /\ \E e \in DOMAIN olog : olog[e] # Tr.seq[e]
